@@ -175,6 +175,7 @@ class C11(Prop):
                 strategies.append((None, False, False, False, None))
                 strategies.append((2, False, True, False, None))
                 strategies.append((None, True, False, False, rng.choice([1, 2, 3])))
+                strategies.append((None, rng.random() < 0.7, False, False, -rng.choice([1, 2, 3])))
                 if name not in NO_PRESORTED:
                     strategies.append((None, True, False, True, None))
                 for st in strategies:
@@ -235,17 +236,26 @@ class C11(Prop):
                 base, _ = self._run(name, ts, key, (None, True, False, False, None))
                 b = obs_rows(base)
                 ok = True
-                # presorted inputs are handed over both ways round (lists first / tuples first)
-                for flip in ((0, 1) if st[3] else (None,)):
-                    v, td = self._run(name, ts, key, st, flip=flip)
-                    try:
-                        o1 = obs_rows(v)
-                        o2 = obs_rows(v)
-                    finally:
-                        del v
-                        if td is not None:
-                            td.cleanup()
-                    ok = ok and o1 == b and o2 == b
+                import petl.config as config
+                old_cfg = config.sort_buffersize
+                if st[4] is not None and st[4] < 0:
+                    # a negative value: the global default stays in force while the table is iterated, too
+                    config.sort_buffersize = -st[4]
+                    st = st[:4] + (None,)
+                try:
+                    # presorted inputs are handed over both ways round (lists first / tuples first)
+                    for flip in ((0, 1) if st[3] else (None,)):
+                        v, td = self._run(name, ts, key, st, flip=flip)
+                        try:
+                            o1 = obs_rows(v)
+                            o2 = obs_rows(v)
+                        finally:
+                            del v
+                            if td is not None:
+                                td.cleanup()
+                        ok = ok and o1 == b and o2 == b
+                finally:
+                    config.sort_buffersize = old_cfg
                 return codec.t_bool(ok)
             if kind == 'cache_clause':
                 _, name, ts, ts2, key, cache, bs = case.arg
